@@ -360,8 +360,11 @@ else:
     kw = dict(kbins=2, paste=case['paste'], nmesh=max(case['nmesh'], 6), compensated=case['compensated'], interlaced=case['interlaced'], w=w, poles=case['poles'] or None, nthread=2)
     A = ps.calc_power(pos.copy(), 10.0, **kw)
     if case['second'] == 'same':
-        B = ps.calc_power(pos.copy(), 10.0, pos2=pos.copy(), w2=w, **kw)
-        if not np.allclose(A['power'], B['power'], rtol=1e-4): bad.append(f'cross with the same particles {{B["power"].tolist()}} != auto {{A["power"].tolist()}}')
+        try:
+            B = ps.calc_power(pos.copy(), 10.0, pos2=pos.copy(), w2=w, **kw)
+            if not np.allclose(A['power'], B['power'], rtol=1e-4): bad.append(f'cross with the same particles {{B["power"].tolist()}} != auto {{A["power"].tolist()}}')
+        except Exception as ex:
+            bad.append(f'cross power with the same particles raised {{type(ex).__name__}}: {{ex}}')
     P = ps.calc_power((pos + 1000.0 * rng.random((200, 3))).astype(np.float32) % 10, 10.0, **kw)
     if not (np.array_equal(A['N_mode'], P['N_mode']) and np.array_equal(A['k_mid'], P['k_mid'])): bad.append('N_mode / k ranges depend on the particles')
 print('case', case)
